@@ -50,6 +50,7 @@ FAULT_PROPS = {
     "NOT_LEFT": {"C08"},
     "PAIR_SPLIT": {"C05", "C12"},
     "SERDE": {"C20"},
+    "NE_INCONSISTENT": {"C14"},
     "CLONE_COUNT": {"C15"},
     "CLONE_EQ": {"C15", "C14"},
     "OVERFLOW_OK": {"C03"},
@@ -334,7 +335,8 @@ def opname(code):
     names = {10: "insert", 11: "insert_key_value", 12: "checked_insert", 13: "insert_unchecked", 20: "get",
              21: "get_mut", 22: "get_key_value", 23: "contains_key", 24: "index", 25: "index_mut", 30: "remove",
              31: "remove_entry", 32: "retain", 33: "clear", 34: "drain", 35: "with_capacity", 40: "iter-session",
-             41: "into_iter-session", 50: "entry-chain", 51: "get_disjoint_mut", 60: "clone", 61: "eq",
+             41: "into_iter-session", 42: "iter-nth", 43: "drain-nth", 44: "into_iter-nth", 142: "Set::iter-nth",
+             143: "Set::drain-nth", 144: "Set::into_iter-nth", 50: "entry-chain", 51: "get_disjoint_mut", 60: "clone", 61: "eq",
              62: "from_iter", 64: "format", 66: "serde", 110: "Set::insert", 111: "Set::replace",
              122: "Set::get", 123: "Set::contains", 130: "Set::remove", 131: "Set::take", 132: "Set::retain",
              133: "Set::clear", 134: "Set::drain", 135: "Set::extend", 140: "Set::iter-session",
@@ -397,8 +399,11 @@ def one_case_fails(prop, tmp):
     return f
 
 
-def surface_check():
-    """C05: every public entry of /repo/src is in coq/MODELLED.tsv"""
+def surface_check(prop=None):
+    """every public function / trait-method override of /repo/src is in coq/MODELLED.tsv (entry -> model
+    definition).  For C05 the whole surface counts (it quantifies over every operation); for any other property
+    only the files the property is anchored in: a new entry there (e.g. an overridden Iterator::nth or fold)
+    means the model no longer describes the code this property is about."""
     import surface
     have = set()
     for ln in open(COQ + "/MODELLED.tsv"):
@@ -406,7 +411,15 @@ def surface_check():
             continue
         have.add(ln.split("\t")[0])
     cur = surface.surface()
-    return [e for e in cur if e not in have]
+    missing = [e for e in cur if e not in have]
+    if prop in (None, "C05"):
+        return missing
+    files = set()
+    for ln in open(ROOT + "/properties.jsonl"):
+        pj = json.loads(ln)
+        if pj["id"] == prop:
+            files = set(f[len("src/"):] if f.startswith("src/") else f for f in pj["anchors"]["files"])
+    return [e for e in missing if e.split(":")[0] in files]
 
 
 def rust_code_only(src):
@@ -606,6 +619,7 @@ def check(prop, tier, replay=None):
         f.write("\n".join(cases) + "\n")
 
     # 4. run both sides, both profiles
+    run_stats = {"calls": 0, "panicking_calls": 0, "cases_with_injected_fault_fired": 0, "objects_tracked_by_ledger": 0}
     diffs = []
     all_faults = []
     validated = 0
@@ -630,6 +644,13 @@ def check(prop, tier, replay=None):
             for ln in open(fp):
                 if ln.startswith("FAULT"):
                     all_faults.append((prof, int(ln.split()[1]), ln.strip()))
+                elif ln.startswith("STAT") and prof == "debug":
+                    m = re.search(r"ops=(\d+) panics=(\d+) fired=(\d+) objects=(\d+)", ln)
+                    if m:
+                        run_stats["calls"] += int(m.group(1))
+                        run_stats["panicking_calls"] += int(m.group(2))
+                        run_stats["cases_with_injected_fault_fired"] += int(m.group(3))
+                        run_stats["objects_tracked_by_ledger"] += int(m.group(4))
 
     # 4b. element-shape oracles (no-Drop types with an observable Clone, ZST, Copy, large, heap-owning)
     if not replay and prop in ("C03", "C06", "C15"):
@@ -710,13 +731,14 @@ def check(prop, tier, replay=None):
                     f"# ({len(diff_cases)} of {len(cases)} cases differ; first difference, shrunk)\n"
                     + "\n".join(txt) + "\n" + small + "\n")
         violations.append((f"correspondence broken on {len(diff_cases)} cases", rp, functional_property(prop)))
-    if prop == "C05" and not replay and not violations:
-        missing = surface_check()
+    if not replay and not violations:
+        missing = surface_check(prop)
         if missing:
             rp = f"{OUT}/replay/{prop}-surface.txt"
             with open(rp, "w") as f:
-                f.write("property C05 quantifies over every public operation; these entries of /repo/src are not in "
-                        "coq/MODELLED.tsv, so the invariant theorems no longer cover the API:\n" + "\n".join(missing) + "\n")
+                f.write(f"property {prop}: these public functions / trait-method overrides of /repo/src (in the files the "
+                        "property is anchored in; for C05: anywhere) are not in coq/MODELLED.tsv, so the model and its "
+                        "theorems no longer describe this code:\n" + "\n".join(missing) + "\n")
             violations.append(("API surface not covered by the model: " + ", ".join(missing[:4]), rp, False))
     if prop == "C06" and not replay and not violations:
         ok6, txt6 = nostd_check()
@@ -743,6 +765,8 @@ def check(prop, tier, replay=None):
         log(f"VIOLATION property={prop} replay={rp}" + ("" if has_input else " no-failing-input-found"))
         log(f"  ({txt})")
     dist = distribution(cases) if cases else {}
+    if dist:
+        dist["measured_on_the_implementation_debug_build"] = run_stats
     nt = len(set(c for c in cases if nontrivial(c)))
     write_evidence(prop, tier, seed, gate, dist, cases, nt, validated, ksample, len(diff_cases), t0,
                    len(violations), notes, n_faults=len(rel_faults))
